@@ -56,8 +56,8 @@ def buildTable (data : List (List (List α))) (colWidths : List Int) (width : In
     else acc) top
   if border then body ++ [horzBar] else body
 
-/-- manip.MakeTable: the lines of the resulting block (separator `lineSep`, no trailing mode) -/
-def makeTable (data : List (List (List α))) (width : Int) (header border : Bool)
+/-- manip.MakeTable below its clamp of the width -/
+def makeTableCore (data : List (List (List α))) (width : Int) (header border : Bool)
     (charSet : List α) : List (List α) :=
   if data.isEmpty then []
   else
@@ -83,6 +83,89 @@ def makeTable (data : List (List (List α))) (width : Int) (header border : Bool
         buildTable cx data colWidths width header border chars
       else
         buildTable cx data padded minTableWidth header border chars
+
+/-- manip.MakeTable: the lines of the resulting block (separator `lineSep`, no trailing mode).
+D20: a negative width is clamped to 0 before `width - minTableWidth` -/
+def makeTable (data : List (List (List α))) (width : Int) (header border : Bool)
+    (charSet : List α) : List (List α) :=
+  makeTableCore cx data (if width < 0 then 0 else width) header border charSet
+
+theorem foldl_maxlen_nonneg {β : Type} (f : β → Int) (hf : ∀ b, 0 ≤ f b) :
+    ∀ (l : List β) (m : Int), 0 ≤ m →
+      0 ≤ l.foldl (fun m row => let n : Int := f row; if n ≥ m then n else m) m := by
+  intro l
+  induction l with
+  | nil => intro m hm; exact hm
+  | cons b l ih =>
+    intro m hm
+    simp only [List.foldl_cons]
+    apply ih
+    split
+    · exact hf b
+    · exact hm
+
+theorem foldl_addpad_nonneg (c : Int) (hc : 0 ≤ c) :
+    ∀ (l : List Int) (s : Int), 0 ≤ s → (∀ x ∈ l, 0 ≤ x) →
+      0 ≤ l.foldl (fun s w => s + w + c) s := by
+  intro l
+  induction l with
+  | nil => intro s hs _; exact hs
+  | cons b l ih =>
+    intro s hs hl
+    simp only [List.foldl_cons]
+    apply ih
+    · have := hl b (List.mem_cons_self ..); omega
+    · intro x hx; exact hl x (List.mem_cons_of_mem _ hx)
+
+theorem getD_nonneg_of_all (l : List Int) (h : ∀ x ∈ l, 0 ≤ x) (i : Nat) : 0 ≤ l.getD i 0 := by
+  rw [List.getD_eq_getElem?_getD]
+  cases hi : l[i]? with
+  | none => simp
+  | some v => simp only [Option.getD_some]; exact h v (List.mem_of_getElem? hi)
+
+omit [DecidableEq α] in
+/-- the core sees the width only through `width - minTableWidth > 0` with `minTableWidth ≥ 0`
+(and hands it to `buildTable` only inside that branch) -/
+theorem makeTableCore_clamp (data : List (List (List α))) (w : Int) (header border : Bool)
+    (charSet : List α) :
+    makeTableCore cx data (if w < 0 then 0 else w) header border charSet =
+      makeTableCore cx data w header border charSet := by
+  by_cases h : w < 0
+  · simp only [h, if_true]
+    unfold makeTableCore
+    simp only []
+    split
+    · rfl
+    · split
+      · rfl
+      · rename_i _ hcc
+        have key : ∀ (M : Int) (A0 A B : List (List α)), 0 ≤ M →
+            (if 0 - M > 0 then A0 else B) = (if w - M > 0 then A else B) := by
+          intro M A0 A B hM
+          rw [if_neg (by omega), if_neg (by omega)]
+        refine key _ _ _ _ ?_
+        apply foldl_addpad_nonneg
+        · split <;> omega
+        · split <;> omega
+        · intro x hx
+          obtain ⟨i, _, rfl⟩ := List.mem_map.1 hx
+          have : 0 ≤ ((List.range (data.foldl (fun m r => max m r.length) 0)).map fun col =>
+              data.foldl (fun m row => if (gLen cx (row.getD col []) : Int) ≥ m
+                then (gLen cx (row.getD col []) : Int) else m) 0).getD i 0 := by
+            apply getD_nonneg_of_all
+            intro y hy
+            obtain ⟨j, _, rfl⟩ := List.mem_map.1 hy
+            exact foldl_maxlen_nonneg (fun row => ((gLen cx (row.getD j []) : Nat) : Int))
+              (fun _ => Int.natCast_nonneg _) data 0 (Int.le_refl 0)
+          split
+          · omega
+          · split <;> omega
+  · simp only [h, if_false]
+
+omit [DecidableEq α] in
+/-- the public function is its core (as a function, so that partial applications rewrite too) -/
+theorem makeTable_eq_core : makeTable cx = makeTableCore cx := by
+  funext d w hd b cs; exact makeTableCore_clamp cx d w hd b cs
 
 end
 end RosedVerif
